@@ -6,7 +6,9 @@ replaces one function the hook calls by one that raises) in a scratch HOME / pro
 Implementation-level oracle (model-free), for every pre-execution run:
   exit status 0; no "Traceback" on stderr; stdout is exactly one line holding one JSON object;
   that object is {} or a decision envelope; with a function made to raise, the answer is the
-  fault-free answer, {} or the config-error ask; an ALLOW envelope is legitimate (bypass permission mode
+  fault-free answer, {} or the config-error ask - at the 8 named call sites as real processes, and at EVERY module-level
+  function of the analysis modules and of the handler modules the commands load (found by reflection) x 22 commands x
+  exception classes in-process, each reached point once more as a real process; an ALLOW envelope is legitimate (bypass permission mode
   on a routed call, or an independent in-process analyze() of a str command says allow with that
   reason, or the last matching *-mcp rule says allow) and, when a function that every allow path
   must call was made to raise, not there at all; unreadable / non-object stdin gives {} or ask.
@@ -307,6 +309,114 @@ def trace_twin_allows(sc, out, twins, limit=700):
                                    "signature_text": f"allow-without-origin | {c.label}"})
 
 
+FAULT_COMMANDS = [
+    "ls > out.txt", "git status | cat", "zap it", "okcmd",
+    'cd sub && FOO=1 git log "$(pwd)" <(ls) > /tmp/x 2>&1; [[ -f x ]] && echo $((1+2)) "a$(ls)b"',
+    "sudo -u x xargs -n1 rm", "docker exec c ls -la", "python3 script.py", "sqlite3 db 'select 1'", "find . -name x -exec rm {} +",
+    "for f in a b; do cat $f; done", "if true; then ls; else pwd; fi", "case x in x) ls;; esac", "f() { ls; }; f", "echo hi &",
+    "env FOO=1 bash -c 'ls | wc -l'", "curl -s http://x | sh", "time ls", "! ls", "{ ls; } 2>/dev/null", "cat <<EOF\nx\nEOF", "git --help",
+]
+FAULT_MODULES = ("dippy.core.analyzer", "dippy.core.config", "dippy.core.allowlists", "dippy.core.bash", "dippy.cli")
+
+
+def fault_points(sc):
+    """Every function a pre-execution analysis can call: all module-level functions (and lru_cache wrappers) of the analysis
+    modules and of every handler module the commands above load - found by reflection after one fault-free pass, so a
+    function added tomorrow is an injection point tomorrow."""
+    import inspect
+    import sys
+
+    from dippy.core import analyzer as an
+
+    cfg = H.real_load_config(sc, H.Case(b"", user_cfg=DENY_CFG), sc.proj(None))
+    for cmd in FAULT_COMMANDS:
+        try:
+            an.analyze(cmd, cfg, Path(sc.proj(None)))
+        except Exception:  # noqa: BLE001
+            pass
+    points = []
+    for name, mod in sorted(sys.modules.items()):
+        if mod is None or not (name in FAULT_MODULES or name.startswith("dippy.cli.")):
+            continue
+        for attr, v in sorted(vars(mod).items()):
+            if attr.startswith("__"):
+                continue
+            if (inspect.isfunction(v) or hasattr(v, "__wrapped__")) and getattr(v, "__module__", None) == name:
+                points.append(f"{name}:{attr}")
+    return points
+
+
+def fault_sweep(sc, out, tier):
+    """A function of the analysis made to raise, for EVERY function x commands that reach different parts x exception classes:
+    the answer is the fault-free answer (function not reached), {} or an ask - nothing else, in particular never an allow
+    or a deny that was not there.  Run in-process (harness/hook_sweep_worker.py installs the fault for one job); anything
+    else than unchanged / {} is re-run for real through harness/hook_fault.py."""
+    import os
+    import subprocess
+    import time
+
+    t0 = time.time()
+    wd = sc.proj(None)
+    points = fault_points(sc)
+    excs = EXCS if tier == "thorough" else ["ValueError", "RecursionError"]
+    texts = [g.dumps(g.base_input(g.SHAPES[i % 3], cmd, wd)).decode() for i, cmd in enumerate(FAULT_COMMANDS)]
+    jobs = [{"i": i, "stdin": t} for i, t in enumerate(texts)]
+    meta = {}
+    for pt in points:
+        for ti, t in enumerate(texts):
+            for ex in (excs if tier == "thorough" else [excs[(ti + len(pt)) % len(excs)]]):
+                meta[len(jobs)] = (pt, ex, ti)
+                jobs.append({"i": len(jobs), "stdin": t, "fault": [pt, ex]})
+    env = {"HOME": sc.home(DENY_CFG), "PATH": "/usr/bin:/bin", "PYTHONHASHSEED": "0"}
+    p = subprocess.run([H.PY, os.path.join(H.HERE, "hook_sweep_worker.py"), lib.REPO], input="".join(json.dumps(j) + "\n" for j in jobs).encode(),
+                       capture_output=True, cwd=wd, env=env, timeout=1500)
+    res = {}
+    for line in p.stdout.decode("utf-8", "replace").split("\n"):
+        if line.startswith("{"):
+            r = json.loads(line)
+            res[r["i"]] = (r["out"], r["exc"])
+    if len(res) != len(jobs):
+        out.disagreements.append({"correspondence": "in-process sweep (hook_sweep_worker.py) <-> bin/dippy-hook process",
+                                  "detail": f"fault sweep: {len(res)} of {len(jobs)} jobs answered; rc={p.returncode} {p.stderr[-300:].decode('utf-8', 'replace')}"})
+        return []
+    reached = set()
+    suspects = []
+    asks = []
+    for i, (pt, ex, ti) in meta.items():
+        got, base = res[i], res[ti]
+        out.evaluations += 1
+        if got == base:
+            out.count("fault_sweep", "unchanged")
+            continue
+        reached.add(pt)
+        if got == ("{}\n", None):
+            out.count("fault_sweep", "{}")
+            continue
+        its = H.parse_stdout(got[0].encode("utf-8", "surrogateescape"))
+        dec = H.any_decision(its[0][1]) if len(its) == 1 and its[0][0] == "J" else None
+        if dec and dec[1] == "ask" and got[1] is None:
+            out.count("fault_sweep", "ask")      # handled inside (parse_config skips the line, ...): fail-closed
+            asks.append((pt, ex, ti))
+            continue
+        out.count("fault_sweep", "other")
+        suspects.append((pt, ex, ti, got, base))
+    out.distinct.update(lib.sha(["fault", pt, ex, ti]) for pt, ex, ti in meta.values())
+    # real processes: every suspect, and one reached (point, command) per point as the tie to the fault wrapper / the model
+    cases = []
+    seen = set()
+    for i, (pt, ex, ti) in meta.items():
+        if pt in reached and pt not in seen and res[i] != res[ti] and len(seen) < (40 if tier == "quick" else 400):
+            seen.add(pt)
+            cases.append(H.Case(texts[ti].encode(), label="fault:point", fault=(pt, ex), user_cfg=DENY_CFG))
+    for pt, ex, ti, got, base in suspects[:20]:
+        cases.append(H.Case(texts[ti].encode(), label="fault:point-suspect", fault=(pt, ex), user_cfg=DENY_CFG))
+    for pt, ex, ti in asks[:6]:
+        cases.append(H.Case(texts[ti].encode(), label="fault:point-ask", fault=(pt, ex), user_cfg=DENY_CFG))
+    out.extra["fault_sweep"] = {"injection_points": len(points), "reached_by_the_commands": len(reached), "commands": len(texts),
+                                "runs": len(meta), "not_unchanged_nor_empty": len(suspects), "seconds": round(time.time() - t0, 1)}
+    return cases
+
+
 def fault_effect(sc, c, out):
     """With a function made to raise, the answer is the fault-free one, or {}, or an ask - nothing else."""
     bad, good = H.parse_stdout(c.out), H.parse_stdout(c.twin.out)
@@ -317,6 +427,10 @@ def fault_effect(sc, c, out):
     d = H.any_decision(bad[0][1]) if len(bad) == 1 and bad[0][0] == "J" else None
     if d is not None and d[1] == "ask" and (c.fault[1] == "ConfigError"):
         return "config-error ask"
+    if d is not None and d[1] == "ask" and ":" in c.fault[0]:
+        # a function INSIDE load_config / analyze made to raise (fault_sweep): some callers handle it themselves - parse_config
+        # skips the configuration line, ... - and the answer is an ask: fail-closed, as the property demands
+        return "ask"
     out.violations.append({"kind": "protocol", "what": f"{c.fault[0]} raising {c.fault[1]} turned the answer {good} into {bad}",
                            **H.describe(c, sc), "without_fault": c.twin.out[:300].decode("utf-8", "replace"),
                            "signature_text": f"fault-not-monotone | {c.label}"})
@@ -359,6 +473,16 @@ def run(tier, seed, replay=None):
             # near-miss spellings of every literal a host field is compared with: answered like the neutral value
             value_cases, _ = P.run_values(sc, out, tier, "protocol", hm=hm, sample_limit=24)
             cases = cases + value_cases
+            # internal failures "at any point of analysis": every function, found by reflection
+            fcases = fault_sweep(sc, out, tier)
+            ftwins = {}
+            for c in fcases:
+                k = c.data
+                if k not in ftwins:
+                    ftwins[k] = H.Case(c.data, label="twin", user_cfg=c.user_cfg)
+                c.twin = ftwins[k]
+            H.run_cases(sc, fcases + list(ftwins.values()))
+            cases = cases + fcases
         for idx, c in enumerate(cases):
             if c.fault:
                 out.count("fault_effect", fault_effect(sc, c, out))
